@@ -836,6 +836,15 @@ def anchors(ctx, sc):
         rep.broken('%s: cannot identify the status codes of yy_get_next_buffer (returns %s, end-of-file %s)' % (v.name, sorted(consts), sorted(eof)))
     return lex, gnb, consts, eof
 
+def vac(rep, v, text):
+    """record a vacuous instance once per reason, with the variants it applies to"""
+    d = rep.__dict__.setdefault('_vac', {})
+    d.setdefault(text, []).append(v.name)
+
+def flush_vac(rep):
+    for text, names in rep.__dict__.get('_vac', {}).items():
+        rep.vacuous.append('%s [%d variants: %s%s]' % (text, len(names), ', '.join(names[:6]), ', ...' if len(names) > 6 else ''))
+
 def usable(v):
     return v.ll is not None and not v.name.endswith('reject_undeclared')
 
@@ -853,7 +862,7 @@ def run(ctx):
         tot['R2'] += r2(ctx, sc, lex, gnb, consts, eof)
         tot['R3'] += r3(ctx, sc, gnb)
         k = r4(ctx, sc)
-        if k == 0: rep.vacuous.append('C03.R4 %s: no stdio getc loop (%s)' % (v.name, 'C++ reads through std::istream in LexerInput' if v.backend == 'cxx' else '%option read or no yyread'))
+        if k == 0: vac(rep, v, 'C03.R4: no stdio getc loop (%s)' % ('C++ reads through std::istream in LexerInput' if v.backend == 'cxx' else 'the scanner uses read(2): %option read or -Cf/-CF'))
         tot['R4'] += k
     rep.require(backends == {'nr', 'r', 'cxx', 'c99', 'go'}, 'back ends analysed: %s' % sorted(backends))
     rep.setcount('variants_analysed', len(vs))
@@ -874,6 +883,7 @@ def run(ctx):
                       'the end-of-file arm of the refill switch (continues through the user\'s yywrap(); joins are not path-insensitive decidable)']
     rep.assumptions += ['clang -O0 IR of the instantiated skeleton is a faithful rendering of the generated C/C++ source',
                         'a callee that (transitively) stores yy_c_buf_p re-establishes it (yyrestart, yy_load_buffer_state)']
+    flush_vac(rep)
     return rep.finish('other',
         'Path rules on LLVM IR of %d instantiated scanner variants (nr, r, C++, c99, go; all table modes): must-pass-through of '
         'yy_get_previous_state() on the refill arms of yylex; staleness analysis of pointers into the buffer (derived by taint from '
